@@ -335,8 +335,7 @@ func (w *crashWorld) wconn(cid, ptype string, variant int64) string {
 				port := crashPortOf(resp.RemoteAddr)
 				_, _ = up.WriteTo([]byte("c16-user-datagram"), &net.UDPAddr{IP: net.IPv4(127, 0, 0, 1), Port: port})
 				// the marker: a well-formed reply addressed to the user socket — it arrives after everything in front of it
-				marker = crashMsgFrame(&msg.UDPPacket{Content: base64.StdEncoding.EncodeToString([]byte("c16-marker")),
-					RemoteAddr: up.LocalAddr().(*net.UDPAddr)})
+				marker = crashMsgFrame(udpPacketOf([]byte("c16-marker"), nil, up.LocalAddr().(*net.UDPAddr))) // eng_udp.go
 			}
 		}
 	case "stcp", "sudp", "rstcp", "rsudp":
